@@ -179,6 +179,9 @@ def check(prop, tier, replay, C):
     lines = []
     reported = set()
     all_viol = [v for sm in summaries for v in sm["violations"]]
+    vp = P.get("violation_prefix")
+    if vp:
+        all_viol = [v for v in all_viol if v["what"].startswith(vp)]
     for v in all_viol:
         kf = match_known(known, prop, v)
         if kf:
